@@ -185,6 +185,8 @@ def run_case(case, ctx):
     # history: building further expressions from the parts of an existing one (including the augmented-assignment
     # spellings, which Python maps to the binary operators unless a class mutates in place) must not change it
     if nodes and isinstance(got, torch.Tensor):
+        from qucumber.observables import SigmaX as X_
+
         g_before = got.detach().clone()
         for nd in [nodes[int(rng.integers(0, len(nodes)))] for _ in range(3)]:
             t_ = nd
@@ -194,6 +196,13 @@ def run_case(case, ctx):
             t_ = -t_
             t2_ = 2 * nd
             t2_ *= -0.5
+            # the node as the LEFT operand of further sums / differences (a sum that is extended must not grow in place)
+            t3_ = nd + 1.5
+            t4_ = nd - X_()
+            t5_ = (nd + nd) + 2
+        r1_ = comp + 2.5
+        r2_ = comp - X_()
+        r3_ = (comp + X_()) + comp
         again = ctx.lib("composite.apply(after building other expressions from its parts)", comp.apply, st, batch, tags=tags)
         ctx.count("immutability_checks")
         if not isinstance(again, torch.Tensor) or again.shape != g_before.shape or not torch.equal(again, g_before):
